@@ -42,6 +42,8 @@ func runC04(c *Ctx, r *Report) {
 	c04Bounds(c, r)
 	c04R3(c, r, "C04.R3")
 	c04R5(c, r, "C04.R5")
+	c04ProvisionedPointers(c, r, "C04.R10")
+	c01R1(c, r, "C04.R11")      // matchers only ever run frozen: an unfrozen matcher reads from the socket, and one that reads until the data ends (dns over UDP) buffers whatever the peer sends
 	c08QuicAddr(c, r, "C04.R9") // a panic of the library, reachable with two simultaneous datagrams
 	// R6
 	r.rule("C04.R6", "no method call on a nil upstream slot in any selection policy (path evaluation, pools of 0..3)", 6)
